@@ -2526,6 +2526,9 @@ def lint_line_length(
 
         # If we don't have a buffer yet, also carry on. Nothing to lint.
         if not line_buffer:
+            # NOTE: This point is still where the next line's indent lives
+            # (e.g. a file which starts with a blank line).
+            last_indent_idx = i
             continue
 
         # Evaluate a line
